@@ -32,6 +32,7 @@ static void note(Result& R, const char* fam, const WaiterProbe& w, uint64_t extr
     if (w.sleeps() > 0) { R.nontrivial++; R.stat(std::string(fam) + ".waiter_really_slept"); }
     if (w.cancels() > 0) R.stat(std::string(fam) + ".wait_cancelled_after_prepare");
     R.signature(mix(mix(std::hash<std::string>{}(fam), w.sig()), extra_sig));
+    if (w.sleeps() > 0 && R.want_sample()) { Json j; j.obj(); j.key("scenario").raw(g_cur.describe()); j.kv("waiter_prepare_wait", (long long)w.prepares()); j.kv("waiter_commits", (long long)w.commits()); j.kv("waiter_cancelled_waits", (long long)w.cancels()); j.kv("waiter_real_sleeps", (long long)w.sleeps()); j.end_obj(); R.sample(j.s); }
     progress();
 }
 static void think(Rng& r, int long_pct) { unsigned k = (unsigned)r.below(100); if ((int)k < long_pct) sleep_us(200 + (unsigned)r.below(2500)); else if (k < 60) spin_iters((unsigned)r.below(3000)); }
@@ -94,6 +95,7 @@ static void fam_cbq(Result& R, Rng& r) {
     if (sum_in.load() != sum_out.load() || q.size() != 0) R.violation("c02.cbq.conservation", "sum pushed " + std::to_string(sum_in.load()) + " != sum popped " + std::to_string(sum_out.load()) + " or size " + std::to_string((long)q.size()), g_cur.describe());
     R.scenarios++; if (slept.load()) { R.nontrivial++; R.stat("cbq.sleeps", (long long)slept.load()); }
     R.signature(mix(mix(cap * 16 + np * 4 + nc, sig.load()), 0xCB));
+    if (slept.load() && R.want_sample()) { Json j; j.obj(); j.key("scenario").raw(g_cur.describe()); j.kv("real_sleeps_in_queue_monitors", (long long)slept.load()); j.end_obj(); R.sample(j.s); }
     progress();
 }
 
